@@ -271,14 +271,14 @@ def run(ctx):
         cases = []
         thorough = ctx.tier == "thorough"
         workloads = [Workload(ctx, env, flags, corpus_program(), "corpus")]
-        for i in range(ctx.n(3, 12)):
+        for i in range(ctx.n(2, 12)):
             workloads.append(Workload(ctx, env, flags, ctl_db.gen_program(rng, ns="gc22g"), f"gen{i}"))
         for wi, w in enumerate(workloads):
             cases.append(w.clean)
             full = (wi == 0) or thorough
             ks = list(range(1, w.ncommits + 1))
-            crash_ks = ks if full else sorted(rng.sample(ks, min(len(ks), 5)))
-            fault_ks = ks if full else sorted(rng.sample(ks, min(len(ks), 5)))
+            crash_ks = ks if full else sorted(rng.sample(ks, min(len(ks), 4)))
+            fault_ks = ks if full else sorted(rng.sample(ks, min(len(ks), 4)))
             for k in crash_ks:
                 crash_case(ctx, w, k, cases)
             for k in fault_ks:
